@@ -99,6 +99,11 @@ def numeric(ctx: Ctx):
                             ctx.violation(f"as_unit|{key}", f"{c.__name__}({v!r}, {u!r}).as_unit({u2!r}): si {q2.si!r} != {q.si!r} or unit {q2.unit!r}", case)
                         # comparisons / arithmetic depend on si only and keep the left unit
                         w = c(1, u2)
+                        import math as _m
+                        bu = next((u_ for u_, f_ in c._units.items() if isinstance(f_, (int, float)) and f_ == 1), None)
+                        near = c(_m.nextafter(q.si, _m.inf), bu) if bu is not None else q      # one ulp away: nearly equal is not equal
+                        if (q == near) != (q.si == near.si) or (q != near) != (q.si != near.si) or (q < near) != (q.si < near.si):
+                            ctx.violation(f"compare|{key}", f"{c.__name__}: comparison of nearly equal SI values {q.si!r} and {near.si!r} does not follow the SI floats", case)
                         if (q < w) != (q.si < w.si) or (q >= w) != (q.si >= w.si) or (q == q2) is not True or (q != q2):
                             ctx.violation(f"compare|{key}", f"comparison of {c.__name__} values in {u!r} and {u2!r} does not follow si", case)
                         a, s_ = q + w, q - w
